@@ -17,6 +17,7 @@ import (
 	"sync/atomic"
 
 	"verif/chk"
+	"verif/e2"
 	"verif/e3/rowdec"
 	"verif/e3/util"
 	"verif/ref"
@@ -280,6 +281,9 @@ func reportAll(r *chk.Run, st *stats) {
 }
 
 func replay(kind string, input json.RawMessage) (bool, string) {
+	if kind == "partial" {
+		return e2.ReplayPartial(input)
+	}
 	if kind == "rows" {
 		// re-run the rows half: it reports the (p, s, kind) again if it still fails
 		var in map[string]int
@@ -491,6 +495,8 @@ func rowsOne(p, sc, kind int) string {
 func run(r *chk.Run) {
 	r.Eval(walks(r))
 	r.Eval(rowsHalf(r))
+	// DECIMAL columns of different size next to each other in partial row images (E2)
+	e2.RunPartialImages(r)
 	// The live heap of this check is tiny and every decode allocates: with the
 	// default pacing the collector would cycle continuously and serialise the
 	// workers. Collect only when 256 MiB of garbage has accumulated.
